@@ -16,6 +16,8 @@ mod sexp;
 mod walrun;
 #[cfg(agdb_verif)]
 mod crashrun;
+#[cfg(agdb_verif)]
+mod concrun;
 
 use std::collections::BTreeMap;
 use std::io::Write;
@@ -117,6 +119,23 @@ fn main() {
             write_lines(&format!("{}/oracle.txt", out), &o.oracle);
             o.stats.insert("snapshots".into(), o.snapshots);
             write_stats(&format!("{}/stats.json", out), &o.stats, o.snapshots, o.nontrivial, &o.samples);
+        }
+        #[cfg(agdb_verif)]
+        "c23" => {
+            // --dbs D --n QUERIES --threads T --small M
+            let mut o = concrun::Out::new();
+            let mut r = rng::Rng::new(seed);
+            let mut sr = r.fork();
+            let mut br = r.fork();
+            concrun::run_small(&mut sr, &out, arg(&args, "--small", "100").parse().unwrap(), &mut o);
+            // the small cases are on disk before the stress starts: a stress run that dies (garbage reads can abort
+            // the process on an impossible allocation) is attributed through progress.txt by checks/c23.py
+            write_lines(&format!("{}/cases.txt", out), &o.cases);
+            write_lines(&format!("{}/impl.txt", out), &o.imp);
+            write_lines(&format!("{}/oracle.txt", out), &o.oracle);
+            concrun::run_stress(&mut br, &out, arg(&args, "--dbs", "6").parse().unwrap(), n, arg(&args, "--threads", "32").parse().unwrap(), &mut o);
+            write_lines(&format!("{}/oracle.txt", out), &o.oracle);
+            write_stats(&format!("{}/stats.json", out), &o.stats, o.evaluations, o.nontrivial, &o.samples);
         }
         "fail" => {
             let mut o = failrun::Out { live: Some(std::fs::OpenOptions::new().create(true).append(true).open(format!("{}/oracle_live.txt", out)).unwrap()), oracle: vec![], stats: BTreeMap::new(), samples: vec![], nontrivial: 0, runs: 0 };
